@@ -245,7 +245,7 @@ int main(int argc, char **argv) {
       WID[NW++] = ""; for (int i = 0; i < (tier ? 23 : 5); i++) { sprintf(WIDB[NW], "%d", tier ? tw[i] : qw[i]); WID[NW] = WIDB[NW]; NW++; } WSTAR = NW; WID[NW++] = "*";
       PRE[NP++] = ""; if (tier) PRE[NP++] = "."; for (int i = 0; i < (tier ? 23 : 5); i++) { sprintf(PREB[NP], ".%d", tier ? tp[i] : qp[i]); PRE[NP] = PREB[NP]; NP++; } PSTAR = NP; PRE[NP++] = ".*"; }
 #define WCLS(wi) ((wi) == 0 ? "none" : (wi) == WSTAR ? "*" : atoi(WID[wi]) > 32 ? "33+" : "1-32")
-#define PCLS(pi) ((pi) == 0 ? "none" : (pi) == PSTAR ? ".*" : atoi(PRE[pi] + 1) == 0 ? ".0" : atoi(PRE[pi] + 1) <= 8 ? ".1-8" : atoi(PRE[pi] + 1) == 9 ? ".9" : ".10+")
+#define PCLS(pi) ((pi) == 0 ? "none" : (pi) == PSTAR ? ".*" : atoi(PRE[pi] + 1) == 0 ? ".0" : atoi(PRE[pi] + 1) <= 7 ? ".1-7" : atoi(PRE[pi] + 1) == 8 ? ".8" : atoi(PRE[pi] + 1) == 9 ? ".9" : ".10+")
     static const char *ILEN[] = { "", "hh", "h", "l", "ll", "z", "j", "t" };
     static const int ITYP[] = { T_INT, T_INT, T_INT, T_LONG, T_LLONG, T_SSIZE, T_IMAX, T_PTRDIFF }, UTYP[] = { T_UINT, T_UINT, T_UINT, T_ULONG, T_ULLONG, T_SIZE, T_UIMAX, T_SIZE };
     char fmt[128], cls[160], fl[8];
